@@ -130,7 +130,7 @@ RULE = ('Relation structures of 1..4 AND-groups x 1..3 alternatives (thorough: u
         'random read paths and subscripts.  In half of the plans the object returned by the first .relations access of a '
         'paragraph is kept and re-read, in the other half .relations is fetched at every step.  Every value read for a '
         'present field must be the structure that was formatted into it (values, types, second formatting), every value '
-        'read for a documented relationship field the paragraph lacks must be [].  Size flavour (20 / 600 repetitions of 41 named '
+        'read for a documented relationship field the paragraph lacks must be [].  Size flavour (20 / 600 repetitions of 43 named '
         'classes): fields of 20, 40, 70, 150, 400 comma clauses (thorough also a random count up to 600; four fifths of the '
         'clauses one atom, the rest 2..3 alternatives; atoms mostly name or name+version as in real fields, a third with '
         'random optional parts); one alternatives group of 10, 17, 30 members inside a short field; one atom with an '
@@ -233,9 +233,56 @@ def _view_floors(cases, first, later, sub_first, sub_later, present, absent, swi
 VIEW_FLOORS = {'quick': _view_floors(1000, 1050, 850, 5500, 350, 60000, 120000, 6000),
                'thorough': _view_floors(18000, 19000, 15000, 100000, 6300, 1000000, 2100000, 110000)}
 
+# size flavour (defined here, used by the floors; the generators are further down)
+SIZE_CLAUSES = [20, 40, 70, 150, 400]
+SIZE_ALTS = [10, 17, 30]
+SIZE_ARCHS = [10, 15, 20]
+SIZE_FORMULAS = [[3, 2], [4, 3], [5, 4], [6, 5]]            # groups x terms
+SIZE_LENGTHS = [80, 200, 998, 1000, 4096, 10000]            # the formatted value is LONGER than this
+SIZE_ATOM_LENGTHS = [80, 200]                               # a single atom (a value without a comma) longer than this
+SIZE_DUPS = ['adjacent', 'apart', 'group-adjacent', 'group-apart', 'alt-dup', 'n-times', 'field-twice', 'scattered',
+             'full-atom']
+SIZE_CLASSES = (['clauses:%d' % n for n in SIZE_CLAUSES] + ['clauses:random']
+                + ['alts:%d' % n for n in SIZE_ALTS] + ['archs:%d' % n for n in SIZE_ARCHS]
+                + ['formula:%dx%d' % (g, t) for g, t in SIZE_FORMULAS] + ['all-together']
+                + ['len:%d' % n for n in SIZE_LENGTHS] + ['atomlen:%d' % n for n in SIZE_ATOM_LENGTHS]
+                + ['dup:%s' % d for d in SIZE_DUPS] + ['dup-long:%s' % d for d in SIZE_DUPS])
+N_SIZE_REPS = {'quick': 20, 'thorough': 600}               # x len(SIZE_CLASSES) cases, split over the shards
+SIZE_INITS = ['dict', 'text', 'lines', 'iter']
+
+
+def _size_floors(reps):
+    """Floors of the size flavour, about half of what the unchanged tree measures (hundredths per repetition of the class
+    list; measured over quick seeds 0-3): a run that never formatted a 400-clause field, a value longer than 10000
+    characters, a repeated clause ... is inconclusive."""
+    per = {'flavour:size': 2150,
+           'size:alts:>=10': 200, 'size:alts:>=17': 130, 'size:alts:>=30': 50,
+           'size:archs:>=10': 210, 'size:archs:>=15': 140, 'size:archs:>=20': 60,
+           'size:atomlen:>80': 195, 'size:atomlen:>200': 75,
+           'size:clauses:>=20': 1000, 'size:clauses:>=40': 850, 'size:clauses:>=70': 390, 'size:clauses:>=150': 175,
+           'size:clauses:>=400': 50,
+           'size:formula:>=3x2': 970, 'size:formula:>=4x3': 195, 'size:formula:>=5x4': 125, 'size:formula:>=6x5': 55,
+           'size:len:>80': 2040, 'size:len:>200': 1585, 'size:len:>998': 950, 'size:len:>1000': 950, 'size:len:>4096': 250,
+           'size:len:>10000': 100,
+           'size:dup:fields-with-repeated-clause': 1000, 'size:dup:fields-with-repeated-clause:>=40-clauses': 590,
+           'size:dup:fields-with-repeated-group': 370, 'size:dup:fields-with-repeated-alternative': 115,
+           'size:dup:repeated-clauses': 5000,
+           'size:route:Packages': 1000, 'size:route:Sources': 1000}
+    for pos in ('only', 'first', 'middle', 'last'):
+        per['size:position:%s' % pos] = 490
+    for init in SIZE_INITS:
+        per['size:init:%s' % init] = 535
+        for t, x in zip(SIZE_LENGTHS, (500, 385, 235, 235, 60, 25)):
+            per['size:init:%s:len:>%d' % (init, t)] = x
+    for cls in SIZE_CLASSES:
+        per['size:class:%s' % cls] = 50
+    return {k: reps * x // 100 for k, x in per.items()}
+
+
 FLOORS = {'quick': {'nontrivial': 50000,
                     'monitors': {'M': 54000, 'M.idem': 54000, 'M.hist': 12000, 'M.deb822': 11000, 'M.order': 48000,
-                                 'M.view': 185000, 'M.view.eq': 5500},
+                                 'M.view': 185000, 'M.view.eq': 5500,
+                                 'M.size': 430, 'M.size.deb822': 430},
                     'counters': {'flavour:rt': 48000, 'flavour:hist': 6000, 'flavour:deb822': 3000,
                                  'deb822:Packages': 1500, 'deb822:Sources': 1500,
                                  'deb822:init:text': 700, 'deb822:init:lines': 700, 'deb822:init:dict': 700,
@@ -253,10 +300,13 @@ FLOORS = {'quick': {'nontrivial': 50000,
                                  'archlist:mixed:neg-then-plain': 7900, 'archlist:mixed:plain-then-neg': 7900,
                                  'archlist:mixed:alternating': 13900, 'archlist:mixed:irregular': 2800,
                                  # view flavour: read paths of the dict-like .relations other than the subscript
-                                 **VIEW_FLOORS['quick']}},
+                                 **VIEW_FLOORS['quick'],
+                                 # size flavour: clause counts, list widths, value lengths, repeated clauses (measured)
+                                 **_size_floors(N_SIZE_REPS['quick'])}},
           'thorough': {'nontrivial': 1100000,
                        'monitors': {'M': 1100000, 'M.idem': 1100000, 'M.hist': 200000, 'M.deb822': 150000,
-                                    'M.order': 1050000, 'M.view': 3300000, 'M.view.eq': 105000},
+                                    'M.order': 1050000, 'M.view': 3300000, 'M.view.eq': 105000,
+                                    'M.size': 12900, 'M.size.deb822': 12900},
                        'counters': {'flavour:rt': 1000000, 'flavour:hist': 100000, 'flavour:deb822': 40000,
                                     'deb822:Packages': 20000, 'deb822:Sources': 20000,
                                     'deb822:init:text': 9000, 'deb822:init:lines': 9000, 'deb822:init:dict': 9000,
@@ -271,7 +321,8 @@ FLOORS = {'quick': {'nontrivial': 50000,
                                     'archlist:plain': 1500000, 'archlist:negated': 1500000,
                                     'archlist:mixed:neg-then-plain': 240000, 'archlist:mixed:plain-then-neg': 240000,
                                     'archlist:mixed:alternating': 420000, 'archlist:mixed:irregular': 109000,
-                                    **VIEW_FLOORS['thorough']}}}
+                                    **VIEW_FLOORS['thorough'],
+                                    **_size_floors(N_SIZE_REPS['thorough'])}}}
 SHAPE_FLOOR = {'quick': 1800, 'thorough': 55000}           # per shape, over the whole run
 KSHAPE_FLOOR = {'quick': 875, 'thorough': 27000}             # per shape with a permuted key order
 
@@ -440,21 +491,7 @@ DOC_KEYS = {'Packages': [f.lower() for f in PKG_FIELDS],
 # ---------------------------------------------------------------------------
 # size flavour: many clauses, wide groups, long lists, long values, repeated clauses
 
-SIZE_CLAUSES = [20, 40, 70, 150, 400]
-SIZE_ALTS = [10, 17, 30]
-SIZE_ARCHS = [10, 15, 20]
-SIZE_FORMULAS = [[3, 2], [4, 3], [5, 4], [6, 5]]            # groups x terms
-SIZE_LENGTHS = [80, 200, 998, 1000, 4096, 10000]            # the formatted value is LONGER than this
-SIZE_ATOM_LENGTHS = [80, 200]                               # a single atom (a value without a comma) longer than this
-SIZE_DUPS = ['adjacent', 'apart', 'group-adjacent', 'group-apart', 'alt-dup', 'n-times', 'field-twice', 'scattered',
-             'full-atom']
-SIZE_CLASSES = (['clauses:%d' % n for n in SIZE_CLAUSES] + ['clauses:random']
-                + ['alts:%d' % n for n in SIZE_ALTS] + ['archs:%d' % n for n in SIZE_ARCHS]
-                + ['formula:%dx%d' % (g, t) for g, t in SIZE_FORMULAS] + ['all-together']
-                + ['len:%d' % n for n in SIZE_LENGTHS] + ['atomlen:%d' % n for n in SIZE_ATOM_LENGTHS]
-                + ['dup:%s' % d for d in SIZE_DUPS] + ['dup-long:%s' % d for d in SIZE_DUPS])
-N_SIZE_REPS = {'quick': 20, 'thorough': 600}               # x len(SIZE_CLASSES) cases, split over the shards
-SIZE_INITS = ['dict', 'text', 'lines', 'iter']
+# (SIZE_CLASSES and the other SIZE_* tables are defined next to the floors, above)
 
 
 def model_text(desc):
@@ -646,11 +683,11 @@ def gen_size_rels(r, cls, wide):
     raise ValueError(cls)
 
 
-def gen_size_case(r, cls, wide, idx):
+def gen_size_case(r, cls, wide, init):
     clsname = 'Packages' if r.random() < 0.5 else 'Sources'
     names = r.sample(CLS_FIELDS[clsname], 3)
     return {'kind': 'size', 'sz': cls, 'rels': gen_size_rels(r, cls, wide),
-            'cls': clsname, 'init': SIZE_INITS[idx % len(SIZE_INITS)], 'field': names[0],
+            'cls': clsname, 'init': init, 'field': names[0],
             # short fields before / after the long one in the paragraph
             'before': [[names[1], gen_rels(r)]] if r.random() < 0.5 else [],
             'after': [[names[2], gen_rels(r)]] if r.random() < 0.5 else []}
@@ -719,9 +756,10 @@ def cases(ctx):
     r = ctx.rng('size')
     idx = 0
     for _rep in range(N_SIZE_REPS[ctx.tier]):
-        for cls in SIZE_CLASSES:
+        for ci, cls in enumerate(SIZE_CLASSES):
             if ctx.mine(idx):
-                yield gen_size_case(r, cls, wide, idx // ctx.nshards + _rep)
+                # the paragraph construction rotates per class so that every class meets every construction on every shard
+                yield gen_size_case(r, cls, wide, SIZE_INITS[(_rep // ctx.nshards + _rep + ci) % len(SIZE_INITS)])
             idx += 1
     # 6. history flavour - last, so that the in-place edits it makes cannot influence the other flavours
     r = ctx.rng('hist')
@@ -1102,6 +1140,10 @@ def make_paragraphs(PR, cls, init, paras):
 
 def objects_from_texts(cls, init, texts):
     """Fresh paragraph objects from the lines of each paragraph."""
+    if init not in ('text', 'lines', 'iter'):        # 'dict': a mapping field name -> value as str() returned it
+        return [cls(dict(l.split(': ', 1) for l in t)) for t in texts]
+    # a value that str() chose to fold arrives as the physical lines a caller has after writing the stanza
+    texts = [[phys for l in t for phys in l.split('\n')] for t in texts]
     if init == 'iter':
         lines = []
         for t in texts:
@@ -1111,9 +1153,7 @@ def objects_from_texts(cls, init, texts):
         return objs if len(objs) == len(texts) else None
     if init == 'text':
         return [cls('\n'.join(t) + '\n') for t in texts]
-    if init == 'lines':
-        return [cls(list(t)) for t in texts]
-    return [cls(dict(l.split(': ', 1) for l in t)) for t in texts]
+    return [cls(list(t)) for t in texts]
 
 
 def observe_relations(PR, cls, clsname, init, paras, on_eval=None):
@@ -1134,7 +1174,12 @@ def observe_relations(PR, cls, clsname, init, paras, on_eval=None):
         for name, desc in fields:
             if on_eval is not None:
                 on_eval()
-            where = '%s(%s).relations[%r] for field value %s' % (clsname, init, name.lower(), rp(obj[name]))
+            try:
+                value = obj[name]
+            except KeyError:
+                return 'field-missing', '%s(%s): the paragraph built from "%s: <str() output>" has no field %r (str() output %s)' % (
+                    clsname, init, name, name, rp(PR.str(build(PR, desc))))
+            where = '%s(%s).relations[%r] for field value %s' % (clsname, init, name.lower(), rp(value))
             if caught:
                 return 'parse-warning', '%s warned: %s' % (where, '; '.join(str(w.message)[:300] for w in caught[:3]))
             try:
@@ -1145,7 +1190,7 @@ def observe_relations(PR, cls, clsname, init, paras, on_eval=None):
             if d is not None:
                 return 'differs/%s' % d[0], '%s: %s' % (where, d[1])
             again = PR.str(got)
-            if again != obj[name]:
+            if again != value:
                 return 'reformat-differs', '%s: formats back to %s' % (where, rp(again))
     return None
 
@@ -1195,6 +1240,218 @@ def run_deb822(ctx, PR, case):
                               {'kind': 'deb822', 'cls': clsname, 'init': init, 'paras': one})
                 return
     ctx.violation('relations-property/%s' % problem[0], problem[1], case)
+
+
+# ---------------------------------------------------------------------------
+# size flavour
+
+def clause_key(c):
+    return repr([[a['n'], a.get('q'), a.get('v'), a.get('a'), a.get('r')] for a in c])
+
+
+def formula_at_least(f, groups, terms):
+    return len(f) >= groups and all(len(g) >= terms for g in f)
+
+
+def measure_size(ctx, desc, text):
+    """Count the size classes of the EXECUTED case: on the description and on the string the live str returned."""
+    n = len(desc)
+    for t in SIZE_CLAUSES:
+        if n >= t:
+            ctx.count('size:clauses:>=%d' % t)
+    widest = max(len(g) for g in desc)
+    for t in SIZE_ALTS:
+        if widest >= t:
+            ctx.count('size:alts:>=%d' % t)
+    atoms = [a for g in desc for a in g]
+    longest = max([len(a['a']) for a in atoms if a.get('a') is not None] or [0])
+    for t in SIZE_ARCHS:
+        if longest >= t:
+            ctx.count('size:archs:>=%d' % t)
+    formulas = [a['r'] for a in atoms if a.get('r') is not None]
+    for g, t in SIZE_FORMULAS:
+        if any(formula_at_least(f, g, t) for f in formulas):
+            ctx.count('size:formula:>=%dx%d' % (g, t))
+    for t in SIZE_LENGTHS:
+        if len(text) > t:
+            ctx.count('size:len:>%d' % t)
+    if '\n' in text:                   # informational (see ASSUMPTIONS): str chose to fold the value
+        ctx.count('size:text:folded-by-str')
+    if len(atoms) == 1:
+        for t in SIZE_ATOM_LENGTHS:
+            if len(text) > t:
+                ctx.count('size:atomlen:>%d' % t)
+    seen, rep = set(), 0
+    for c in desc:
+        k = clause_key(c)
+        if k in seen:
+            rep += 1
+        seen.add(k)
+    if rep:
+        ctx.count('size:dup:fields-with-repeated-clause')
+        ctx.count('size:dup:repeated-clauses', rep)
+        if any(len(c) > 1 and clause_key(c) in [clause_key(d) for d in desc[:i]] for i, c in enumerate(desc)):
+            ctx.count('size:dup:fields-with-repeated-group')
+        if n >= 40:
+            ctx.count('size:dup:fields-with-repeated-clause:>=40-clauses')
+    if any(len(set(clause_key([a]) for a in g)) < len(g) for g in desc):
+        ctx.count('size:dup:fields-with-repeated-alternative')
+
+
+def minimise(fails, rels, budget=400):
+    """A smaller structure on which `fails` (structure -> failure or None) still reports a failure: a single atom, a single
+    clause, else a short run of consecutive clauses (shortest failing prefix, then its shortest failing suffix - size and
+    repetition defects need the other clauses).  Returns (failure, structure) or None when nothing smaller fails."""
+    left = [budget]
+
+    def f(x):
+        if left[0] <= 0:
+            return None
+        left[0] -= 1
+        return fails(x)
+
+    if sum(len(g) for g in rels) > 1:
+        seen = set()
+        for g in rels:
+            for a in g:
+                k = clause_key([a])
+                if k not in seen:
+                    seen.add(k)
+                    got = f([[a]])
+                    if got is not None:
+                        return got, [[a]]
+        for g in rels:
+            if len(g) > 1:
+                got = f([g])
+                if got is not None:
+                    return got, [g]
+    if len(rels) < 2:
+        return None
+    left[0] = max(left[0], 60)
+    lo, hi = 1, len(rels)               # invariant aimed at: rels[:hi] fails
+    while lo < hi:
+        mid = (lo + hi) // 2
+        if f(rels[:mid]) is not None:
+            hi = mid
+        else:
+            lo = mid + 1
+    best = rels[:hi]
+    lo, hi = 0, len(best) - 1           # largest start with best[start:] failing
+    while lo < hi:
+        mid = (lo + hi + 1) // 2
+        if f(best[mid:]) is not None:
+            lo = mid
+        else:
+            hi = mid - 1
+    cand = best[lo:]
+    if fails(cand) is None:
+        cand = best if fails(best) is not None else rels
+    # clauses in the middle that are not needed (delta debugging over chunks of clauses, within the budget)
+    n = 2
+    while len(cand) >= 3 and left[0] > 0:
+        chunk = max(1, len(cand) // n)
+        for i in range(0, len(cand), chunk):
+            less = cand[:i] + cand[i + chunk:]
+            if less and f(less) is not None:
+                cand, n = less, max(n - 1, 2)
+                break
+        else:
+            if chunk == 1:
+                break
+            n = min(n * 2, len(cand))
+    if len(cand) < len(rels):
+        got = fails(cand)
+        if got is not None:
+            return got, cand
+    return None
+
+
+def shrink_size(ctx, PR, desc, fail):
+    got = minimise(lambda x: roundtrip(ctx, PR, x, mon=False)[0], desc)
+    small = desc
+    if got is not None:
+        fail, small = got
+    if any(permuted(a) for g in small for a in g) and roundtrip(ctx, PR, strip_order(small), mon=False)[0] is None:
+        fail = ('format-depends-on-key-order/%s' % fail[0],
+                '%s [the == structure with canonical key order round-trips]' % fail[1])
+    note = ' [witness: %d clause(s) / %d atom(s) of a generated field of %d clauses]' % (
+        len(small), sum(len(g) for g in small), len(desc))
+    return (fail[0], fail[1] + note), {'kind': 'rt', 'rels': small, 'repeat': 2}
+
+
+def size_in_domain(case):
+    try:
+        if case['cls'] not in CLS_FIELDS or case['init'] not in SIZE_INITS or not isinstance(case.get('sz'), str):
+            return False
+        fields = list(case.get('before') or []) + [[case['field'], case['rels']]] + list(case.get('after') or [])
+        names = [n.lower() for n, _d in fields]
+        if len(set(names)) != len(names) or not all(n in CLS_FIELDS[case['cls']] for n, _d in fields):
+            return False
+        return all(in_domain(d) for _n, d in fields)
+    except (KeyError, TypeError, ValueError):
+        return False
+
+
+def run_size(ctx, PR, case):
+    from debian import deb822
+    desc = case['rels']
+    ctx.count('size:class:%s' % (case['sz'] if case['sz'] in SIZE_CLASSES else 'other'))
+    nt = account(ctx, desc)
+    # 1. the bare boundary
+    fail, text, _given, _back = roundtrip(ctx, PR, desc)
+    ctx.mon('M.size')
+    if fail is not None:
+        fail, small = shrink_size(ctx, PR, desc, fail)
+        ctx.violation(fail[0], fail[1], small)
+        return
+    measure_size(ctx, desc, text)
+    # 2. the same value as a field of a paragraph
+    clsname, init, name = case['cls'], case['init'], case['field']
+    cls = getattr(deb822, clsname)
+    before, after = list(case.get('before') or []), list(case.get('after') or [])
+    for _n, d in before + after:
+        account(ctx, d)
+    paras = [before + [[name, desc]] + after]
+    problem = observe_relations(PR, cls, clsname, init, paras)
+    if problem == 'count':
+        ctx.count('skipped:paragraph-count')
+        return
+    ctx.mon('M.size.deb822')
+    ctx.count('size:route:%s' % clsname)
+    ctx.count('size:init:%s' % init)
+    ctx.count('size:position:%s' % ('only' if not (before or after) else 'first' if not before else
+                                    'last' if not after else 'middle'))
+    for t in SIZE_LENGTHS:
+        if len(text) > t:
+            ctx.count('size:init:%s:len:>%d' % (init, t))
+    if problem is None:
+        if nt or len(desc) >= 2:
+            ctx.nontrivial()
+        return
+    # attribution: a short neighbour field that fails at the bare boundary
+    for _n, d in before + after:
+        f = roundtrip(ctx, PR, d, mon=False)[0]
+        if f is not None:
+            f, small = shrink(ctx, PR, d, f)
+            ctx.violation(f[0], f[1], small)
+            return
+
+    def fails_alone(x):
+        p1 = observe_relations(PR, cls, clsname, init, [[[name, x]]])
+        return None if p1 in (None, 'count') else p1
+
+    p1 = fails_alone(desc)
+    if p1 is None:            # needs the neighbour fields: the case itself is the witness
+        ctx.violation('relations-property/%s' % problem[0], problem[1], case)
+        return
+    got = minimise(fails_alone, desc, budget=150)
+    small = desc
+    if got is not None:
+        p1, small = got
+    ctx.violation('relations-property/%s' % p1[0],
+                  '%s [witness: %d clause(s) of a generated field of %d clauses; the bare str/parse_relations round trip of '
+                  'the whole field holds]' % (p1[1], len(small), len(desc)),
+                  {'kind': 'deb822', 'cls': clsname, 'init': init, 'paras': [[[name, small]]]})
 
 
 # ---------------------------------------------------------------------------
@@ -1605,6 +1862,11 @@ def run_case(ctx, case):
             ctx.count('skipped:out-of-domain')
             return
         run_deb822(ctx, PR, case)
+    elif kind == 'size':
+        if not size_in_domain(case):
+            ctx.count('skipped:out-of-domain')
+            return
+        run_size(ctx, PR, case)
     elif kind == 'view':
         if not view_in_domain(case):
             ctx.count('skipped:out-of-domain')
@@ -1626,7 +1888,7 @@ def conclusive(tier, counters, monitor_evals, extra):
             len(missing), len(SHAPES), KSHAPE_FLOOR[tier], ', '.join(missing[:8])))
     if counters.get('skipped:out-of-domain', 0):
         return 'generator produced %d out-of-domain cases (harness defect)' % counters['skipped:out-of-domain']
-    if counters.get('skipped:paragraph-count', 0) > (counters.get('flavour:deb822', 0) + counters.get('flavour:view', 0)) // 10:
+    if counters.get('skipped:paragraph-count', 0) > (counters.get('flavour:deb822', 0) + counters.get('flavour:view', 0) + counters.get('flavour:size', 0)) // 10:
         return 'deb822 flavour: iter_paragraphs returned an unexpected paragraph count too often'
     return None
 
@@ -1639,7 +1901,12 @@ LEVEL_TEXT = ('Runtime monitoring: 10^5 (quick) / 2*10^6 (thorough) generated re
               'third flavour reads the result through Packages/Sources .relations by subscript; a fourth reads the dict-like '
               '.relations through every other read path (items, values, keys, iteration, get, dict(), {**}, copy, ==, in, '
               'len) on fresh paragraph objects before and after the first subscript and on two objects alternately, '
-              'documented absent relationship fields reading as [].  About half of the per-relation dicts '
+              'documented absent relationship fields reading as [].  A fifth flavour covers size and repetition: fields of '
+              '20..400 (thorough ..600) comma clauses, alternatives groups of 10..30, architecture lists of 10..20, restriction '
+              'formulas up to 6 groups x 5 terms, formatted values just above 80 / 200 / 998 / 1000 / 4096 / 10000 characters '
+              '(counted on the text the live str returned), single atoms above 80 / 200 characters and exactly repeated '
+              'clauses / groups / alternatives, each judged at the bare boundary and through Packages/Sources '
+              '.relations[field].  About half of the per-relation dicts '
               'reach str with a permuted key insertion order (same items; str must give the string of the == canonical '
               'structure), a quarter of the architecture lists mix negated and plain names.  Held-on-observed, not a proof.')
 LEVEL_NOTE = ('Trusted: CPython, the generators and vp.models.dpkgver.classify (version validity).  Domain restricted to '
@@ -1652,4 +1919,6 @@ TECHNIQUE = ('runtime monitoring: boundary oracle M (the generated structure its
              'results between parses); M.deb822 observes the same boundary through Packages/Sources .relations[name]; '
              'M.view / M.view.eq observe it through the other read paths of the dict-like .relations (items, values, keys, '
              'iteration, get, dict(), {**}, copy, ==/!=, in, len) before and after the first subscript, on fresh paragraph '
-             'objects and on two objects read alternately')
+             'objects and on two objects read alternately; M.size / M.size.deb822 apply the same oracle to named size and '
+             'repetition classes (many clauses, wide groups, long lists, long values, repeated clauses), the classes being '
+             'measured on the executed case and floor-guarded')
